@@ -19,7 +19,7 @@ No hard-coded size constants in rate_limiter/*.py besides the default queue capa
 """
 from __future__ import annotations
 
-from hv.scenarios.base import T, dur_ms, seed_all, stats_of
+from hv.scenarios.base import LOSSY_MS, T, dur_ms, seed_all, stats_of
 
 NAME = "ratelimit"
 MODEL = "C10"
@@ -94,6 +94,23 @@ def gen_cfg(rng):
                 kind = "distributed"
             lanes.append(_lane(rng, kind, overload and rng.random() < 0.5))
     return {"lanes": lanes, "end": rng.choice([8.0, 10.0]) if long_run else rng.choice([2.0, 3.0, 4.0, 2.05, 3.003])}
+
+
+def gen_cfg_wide(rng):
+    """maximum-coverage configuration: every limiter kind once; the windowed policies get a window that loses a nanosecond
+    in the seconds -> ns conversion (1.001 s ... 1.3 s) and fewer permits per window than arrivals (requests queue and a
+    poll is armed for the next window start); the run covers several windows"""
+    lanes = []
+    for kind in KINDS:
+        lane = _lane(rng, kind, False)
+        st = lane["stages"][-1]
+        if kind in ("sliding", "fixed", "adaptive"):
+            st["window_ms"] = rng.choice([m for m in LOSSY_MS if m <= 1300])
+            st["max_req"] = rng.choice([1, 2, 3, 5])
+            st["qcap"] = rng.choice([5, 20, 200])
+            lane["sources"] = [{"rate": rng.choice([10, 20, 40]), "poisson": rng.random() < 0.35}]
+        lanes.append(lane)
+    return {"lanes": lanes, "end": rng.choice([4.0, 5.0])}
 
 
 def _policy(st):
